@@ -56,6 +56,16 @@ def cases(rng, tier):
             out.append({"t": "req", "cls": qn, "args": a, "drop": pn})
             if spec[pn][0] in ("str", "listStr", "spSep", "int"):
                 out.append({"t": "req", "cls": qn, "args": base, "drop": pn, "empty": True})
+        # a missing required parameter BESIDE optional ones: whatever else the message carries (an `error`, a token, ...) does not
+        # make up for it.  `error` always, the other optional parameters of modelled kinds sampled (all of them in the thorough tier)
+        opt = [pn for pn, (k, r) in spec.items() if not r and k != "other" and plausible(rng, k, pn, cls) is not None]
+        for pn in req:
+            a = dict(base); a.pop(pn)
+            some = [o for o in opt if o == "error"] + (opt if tier != "quick" else rng.sample(opt, min(3, len(opt))))
+            for o in dict.fromkeys(some):
+                out.append({"t": "req", "cls": qn, "args": dict(a, **{o: plausible(rng, spec[o][0], o, cls)}), "drop": pn, "beside": o})
+            if opt:
+                out.append({"t": "req", "cls": qn, "args": dict(a, **{o: plausible(rng, spec[o][0], o, cls) for o in opt}), "drop": pn, "beside": "*"})
         for pn in cls.c_allowed_values:
             if pn in spec and spec[pn][0] != "other":
                 a = dict(base)
